@@ -1,41 +1,16 @@
 #!/bin/bash
 # Full .vo build of the Coq development (no arguments) or of the given .vo targets with
-# their dependencies.  Own tiny Makefile instead of coq_makefile so that a file that does
-# not even lex (someone else's work in progress) cannot break the dependency scan of the
-# targets that do not depend on it.  Only the dependency scan is serialised with a lock;
-# compilation runs concurrently (each check builds its own directory).
-set -e
-cd "$(dirname "$0")"
-mkdir -p .deps.d
-(
-  flock 9
-  for f in $(find theories -name '*.v' | sort); do
-    d=".deps.d/$(echo "$f" | tr '/' '_').d"
-    if [ ! -f "$d" ] || [ "$f" -nt "$d" ]; then
-      coqdep -Q theories PV "$f" 2>/dev/null > "$d.tmp" || echo "# coqdep failed: $f" > "$d.tmp"
-      mv "$d.tmp" "$d"
-    fi
-  done
-  # drop dependency files of deleted sources
-  for d in .deps.d/*.d; do
-    [ -e "$d" ] || continue
-    src=$(head -1 "$d" | sed -n 's/^\(theories[^ ]*\)\.vo .*/\1.v/p')
-    [ -n "$src" ] && [ ! -f "$src" ] && rm -f "$d"
-  done
-  cat .deps.d/*.d > .deps.new 2>/dev/null || : > .deps.new
-  mv .deps.new .deps
-  cat > Makefile.mini <<'MK'
-COQFLAGS := -q -Q theories PV -w -notation-overridden,-deprecated-hint-without-locality,-deprecated-syntactic-definition,-ambiguous-paths
-VFILES := $(shell find theories -name '*.v' | sort)
-all: $(VFILES:.v=.vo)
-%.vo: %.v
-	@echo COQC $<
-	@timeout 1500 coqc $(COQFLAGS) $<
-include .deps
-MK
-) 9>.build.lock
+# their dependencies.  Own tiny Makefile (Makefile.mini) and own dependency scan (mkdeps.py,
+# one process, tolerant of files that do not lex) instead of coq_makefile/coqdep.  No lock:
+# each invocation uses its own dependency file; checks build their own directories.
+cd "$(dirname "$0")" || exit 2
+deps=".deps.$$"
+python3 mkdeps.py > "$deps" || { rm -f "$deps"; exit 2; }
 if [ $# -eq 0 ]; then
-  timeout 3000 make -f Makefile.mini -j16 all 2>&1
+  timeout 3000 make -f Makefile.mini DEPS="$deps" -j16 all 2>&1
 else
-  timeout 3000 make -f Makefile.mini -j8 "$@" 2>&1
+  timeout 3000 make -f Makefile.mini DEPS="$deps" -j8 "$@" 2>&1
 fi
+rc=$?
+rm -f "$deps"
+exit $rc
